@@ -24,7 +24,34 @@ COMMON_ASSUMPTIONS = [
     "bounds listed under coverage.bounds; nothing is claimed outside them",
 ]
 
+LEVEL_TEXT = ("Bounded symbolic model checking of the real Go code: each harness executes the implementation's SSA symbolically; "
+              "every assertion is decided by z3 for all values of the symbolic inputs/pre-state within the stated bounds; "
+              "counterexamples are replayed natively before being reported.")
+LEVEL_NOTE = ("Trusted: go/ssa, the engine's SSA-to-SMT translation and stubs (listed in evidence.coverage.stubs; validated each run by replaying "
+              "solver models of reached harness ends natively), z3. Inductive-step harnesses assume their stated invariant characterises reachable states.")
+
+
+def P(bounds_quick, bounds_thorough, outside, assumptions=(), **kw):
+    d = {"level": "model_checking", "level_text": LEVEL_TEXT, "level_note": LEVEL_NOTE,
+         "bounds_quick": bounds_quick, "bounds_thorough": bounds_thorough, "outside": outside, "assumptions": list(assumptions)}
+    d.update(kw)
+    return d
+
+
 PROPS = {
+    "C02": P("entity pool of 4 and 6 slots (2 reserved), every id/generation/free-chain content satisfying I-pool, tight slice capacity; one step of Get / Recycle (+ re-issue) with an arbitrary previously issued handle as observer; Recycle of reserved ids",
+             "same", "generation wrap after 2^32 recycles of one id (assumed not to happen); forged handles with ids never issued; world-level creators are covered by C01/C06 harnesses",
+             ["I-pool with ghost alive/rank/maxGen describes reachable pools"]),
+    "C03": P("mask algebra (Get/Set/Clear/Not/OrI/Contains/ContainsAny/Equals/IsZero/newMask/TotalBitsSet) and filter.matches/Exclusive for ALL 256-bit masks and bit positions; query walks: see C03 world harnesses",
+             "same", "iteration order"),
+    "C08": P("each of the 9 dispatchers (FireCreateEntity, FireRemoveEntity, FireCreateEntityRel, FireRemoveEntityRel, FireAdd, FireRemove, FireSet, FireSetRelations, FireCustom) with 2 observers whose three 256-bit masks and flags are symbolic, aggregates symbolic under I-obs, earlyOut symbolic, transition masks fully symbolic; RemoveObserver at every position of 2 observers; AddObserver onto an arbitrary 1-observer state for 9 event types x 32 observer specs",
+             "3 observers per dispatcher; RemoveObserver with 3 observers", "more than 3 observers per event type; observer order",
+             ["doc_pred is the rule of docs/content/events (all observed components affected together; With/Without against the entity composition)"]),
+    "C15": P("capPow2, CanShrink/Shrink target and Extend growth arithmetic for ALL uint32 len/cap/minCapacity up to 2^31", "same", "capacities above 2^31 (uint32 overflow of capPow2)"),
+    "C16": P("observerManager.Reset from an arbitrary I-obs state with 1 (quick) or 2 observers, for EVERY event type 0..255", "same plus 2 observers", "see DESIGN"),
+    "C17": P("MarshalBinary/AppendBinary/UnmarshalBinary for all 2^64 handles; inputs of every length 0..12 except 8 rejected with the entity unchanged (real encoding/binary SSA executed)", "same", "JSON codec (encoding/json not modelled); inputs longer than 12 bytes"),
+    "C18": P("registry step (known id stable, new id = count, overflow panics without consuming, unregisterLast) for counts 0..2 and max-2..max; toTypes for counts 0..3 and {64,65,255,256} with masks {lowest, one symbolic position, highest}; locked registration; Resources as a map for all id pairs",
+             "toTypes additionally at counts 63,127,128,129,191,192,193", "masks with more than 3 set bits in toTypes (popcount concretisation)"),
     "C07": {
         "level": "model_checking",
         "level_text": "Bounded symbolic model checking: one inductive step of each lock/bit-pool operation from an arbitrary invariant-satisfying state is decided by z3 for every value of every symbolic variable within the stated bounds.",
